@@ -10,8 +10,13 @@
 (* io2: what a second iopub subscriber received).                                              *)
 EXTENDS KernelCore, Json, IOUtils
 
-Cases == JsonDeserialize(IOEnv.CASES)
+\* the case file is parsed once (TLC re-evaluates a definition over IOEnv at every use); register 1 holds
+\* it, registers 1 + c and 1 + N + c hold the progress and the acceptance flag of case c
+ASSUME TLCSet(1, JsonDeserialize(IOEnv.CASES))
+Cases == TLCGet(1)
 N     == Len(Cases)
+R(c)  == 1 + c
+A(c)  == 1 + N + c
 
 VARIABLE cid
 vars  == <<cid, alive, ecount, pc, cur, todo, phdr, hq, acc, log, inbox, nreq>>
@@ -42,16 +47,16 @@ Diag ==
        ELSE IF x.e = "out" THEN "unexpected-" \o x.t \o "-at-" \o pc
        ELSE "unexpected-" \o x.e \o "-at-" \o pc
 
-ASSUME \A c \in 1..N : TLCSet(c, <<0, "nothing-matched">>) /\ TLCSet(N + c, FALSE)
-Track == /\ IF Len(log) >= TLCGet(cid)[1] THEN TLCSet(cid, <<Len(log), Diag>>) ELSE TRUE
-         /\ IF Accepting THEN TLCSet(N + cid, TRUE) ELSE TRUE
+ASSUME \A c \in 1..N : TLCSet(R(c), <<0, "nothing-matched">>) /\ TLCSet(A(c), FALSE)
+Track == /\ IF Len(log) >= TLCGet(R(cid))[1] THEN TLCSet(R(cid), <<Len(log), Diag>>) ELSE TRUE
+         /\ IF Accepting THEN TLCSet(A(cid), TRUE) ELSE TRUE
 
 IoPub(c) == SelectSeq(c.trace, LAMBDA x : x.e = "out" /\ x.ch = "iopub")
 Accepted ==
-  /\ PrintT("INFO " \o ToJson([cases |-> N, accepted |-> Cardinality({ c \in 1..N : TLCGet(N + c) })]))
+  /\ PrintT("INFO " \o ToJson([cases |-> N, accepted |-> Cardinality({ c \in 1..N : TLCGet(A(c)) })]))
   /\ \A c \in 1..N :
-   IF ~TLCGet(N + c)
-     THEN PrintT("REJECT " \o ToJson([id |-> Cases[c].id, line |-> TLCGet(c)[1] + 1, why |-> TLCGet(c)[2]]))
+   IF ~TLCGet(A(c))
+     THEN PrintT("REJECT " \o ToJson([id |-> Cases[c].id, line |-> TLCGet(R(c))[1] + 1, why |-> TLCGet(R(c))[2]]))
    ELSE IF IoPub(Cases[c]) # Cases[c].io2
      THEN PrintT("REJECT " \o ToJson([id |-> Cases[c].id, line |-> 0, why |-> "iopub-subscribers-differ"]))
    ELSE TRUE
